@@ -239,6 +239,7 @@ func init() {
 			"task": drv.T(), "seq": drv.Seq(drv.T(), drv.T()), "par": drv.Par(drv.T(), drv.T()), "xor": drv.Xor(1, drv.T(), drv.E()),
 			"incl": drv.Incl(1, drv.T(), drv.T()), "loop": drv.LoopB(drv.T()), "sub": drv.SubB(drv.T()), "side": drv.Side(),
 			"par-sub": drv.Par(drv.SubB(drv.T()), drv.T()), "xor-par": drv.Xor(1, drv.Par(drv.T(), drv.T()), drv.T()),
+			"par-xor": drv.Par(drv.Xor(1, drv.T(), drv.E()), drv.Xor(1, drv.T(), drv.E())), "par-incl": drv.Par(drv.Incl(1, drv.T(), drv.T()), drv.T()),
 		}
 		var names []string
 		for n := range progs {
@@ -260,6 +261,17 @@ func init() {
 			}
 			for _, k := range []string{"event-gateway", "parallel-catch", "boundary"} {
 				sc := &h.Scn{Name: fmt.Sprintf("C17/%s/d%d", k, d), Body: eventBody(k), Opts: verifrt.Options{Bound: d, UseCache: true}}
+				sc.Weight = 10 * (1 + 300*d)
+				if d >= 1 {
+					sc.Split = 16
+				}
+				out = append(out, sc)
+			}
+		}
+		more := map[string]func() func(){"cancel": cancelBody, "timer": timerBody, "data": dataBody, "process-set": setBody}
+		for _, k := range []string{"cancel", "data", "process-set", "timer"} {
+			for _, d := range bounds {
+				sc := &h.Scn{Name: fmt.Sprintf("C17/%s/d%d", k, d), Body: more[k](), Opts: verifrt.Options{Bound: d, UseCache: true}}
 				sc.Weight = 10 * (1 + 300*d)
 				if d >= 1 {
 					sc.Split = 16
